@@ -455,4 +455,17 @@ theorem once_returns_stored_or_fresh (expTime now : Int) (c : Model.Funcs.Cell) 
   unfold Model.Funcs.onceCall
   cases h : Model.Funcs.cellGet now c <;> simp
 
+/-- **Known finding** `before.result-lost-after-entry-expires`: the full clause "later calls return the result of the
+last run" is FALSE of the code when the cache's entries expire — n = 2, lifetime 20: the calls at instant 0 give 101, 102,
+102; the call at instant 25 gives 0 (and does not run the callback).  The exact behaviour for every history of instants is
+`Theorems/C18More.lean: before_timed_live / before_timed_expired`; with entries that do not expire the full clause holds
+(`before_spec`). -/
+theorem before_full_false :
+    let res : Nat → Int := fun j => 100 + (j : Int)
+    let s1 := (Model.Funcs.beforeCall 20 0 res { n := 2 }).1
+    let s2 := (Model.Funcs.beforeCall 20 0 res s1).1
+    let s3 := (Model.Funcs.beforeCall 20 0 res s2).1
+    (Model.Funcs.beforeCall 20 0 res s2).2 = (false, 102) ∧ (Model.Funcs.beforeCall 20 25 res s3).2 = (false, 0) := by
+  decide
+
 end GoguVerif.Theorems.C18
